@@ -65,6 +65,7 @@ pub struct FragReader {
     pub boundaries: Vec<usize>,
     pub faults: Vec<(usize, ReadFault, usize)>,
     pub calls: usize,
+    pub calls_at_end: usize,
     pub faults_returned: usize,
     pub log: Vec<ReadEv>,
 }
@@ -78,6 +79,7 @@ impl FragReader {
             boundaries,
             faults,
             calls: 0,
+            calls_at_end: 0,
             faults_returned: 0,
             log: vec![],
         }
@@ -94,6 +96,14 @@ impl Read for FragReader {
     fn read(&mut self, buf: &mut [u8]) -> io::Result<usize> {
         let t0 = Instant::now();
         self.calls += 1;
+        // a caller that keeps asking after the end of the stream (or spins on an error) would hang the check: the double
+        // turns that into a panic, which every workload catches and reports
+        if self.pos >= self.tape.len() {
+            self.calls_at_end += 1;
+            if self.calls_at_end > 100_000 {
+                panic!("the reader was polled 100 000 times after the end of the stream");
+            }
+        }
         let at = self.pos;
         let mut fault = None;
         if !buf.is_empty() {
@@ -158,6 +168,7 @@ pub struct FragWriter {
     pub calls: usize,
     pub log: Vec<WriteEv>,
     pub flushes: usize,
+    pub fruitless_calls: usize,
 }
 
 impl FragWriter {
@@ -169,6 +180,7 @@ impl FragWriter {
             calls: 0,
             log: vec![],
             flushes: 0,
+            fruitless_calls: 0,
         }
     }
 }
@@ -178,6 +190,12 @@ impl Write for FragWriter {
         let t0 = Instant::now();
         let act = self.script.get(self.calls).copied().unwrap_or(self.default);
         self.calls += 1;
+        if matches!(act, WriteAct::Zero | WriteAct::Interrupted) {
+            self.fruitless_calls += 1;
+            if self.fruitless_calls > 100_000 {
+                panic!("the sink was offered data 100 000 times without accepting any (the writer spins instead of giving up)");
+            }
+        }
         let r = match act {
             WriteAct::Accept(k) => {
                 let n = k.max(1).min(buf.len());
